@@ -245,3 +245,42 @@ def writer_graphs(ctx, rep, natoms=(3, 3), max_rings=3, time_limit=60):
     part = rep.add_part("step: mol_to_smiles on two chain fragments of %d+%d atoms with up to %d solver-chosen ring bonds (also across fragments)"
                         % (n1, n2, max_rings), res, {"atoms": [n1, n2], "ring_bonds": "any set of at most %d non-chain pairs" % max_rings})
     return part
+
+
+def index_read_lemma(ctx, rep):
+    """decoder-side index reading (_read_index_from_selfies) with 1-3 requested and 0-3 available symbols"""
+    from . import docs
+    from .symstr import make_tokens, model_value
+    dec = ctx.dec
+    ALPHA = docs.DOC_INDEX + ["[F]", "[=O]", "[Branch3]", "[epsilon]"]
+
+    def digit(tok):
+        if tok is None:
+            return z3.IntVal(0)
+        e = z3.IntVal(0)
+        for i, v in enumerate(tok.vals):
+            d = docs.DOC_INDEX.index(v) if v in docs.DOC_INDEX else 0
+            if d:
+                e = z3.If(tok.e == i, z3.IntVal(d), e)
+        return e
+
+    def path(eng, col):
+        ctx.reset()
+        L = int(fresh_int("L", 1, 3))
+        avail = int(fresh_int("avail", 0, 3))
+        toks = make_tokens("i", min(L, avail), ALPHA)
+        q = dec._read_index_from_selfies(iter(list(enumerate(toks))), n_symbols=L)
+        if isinstance(q, tuple):
+            q = q[0]
+        want = z3.IntVal(0)
+        for j in range(L):
+            want = want * 16 + digit(toks[j] if j < len(toks) else None)
+        col.nontrivial((L, avail))
+        col.sample({"symbols_requested": L, "symbols_available": avail})
+        m = eng.find_model([zint(q) != want])
+        if m is not None:
+            col.candidate({"prop": rep.pid, "kind": "index", "symbols": [model_value(m, t) for t in toks] + [None] * (L - len(toks))})
+
+    res = driver.explore_parallel(path, 60, nworkers=1)
+    _lemma(rep, "lemma index reading: 1-3 requested symbols, 0-3 available (missing = digit 0), each free over 20 symbols", res,
+           {"alphabet": ALPHA, "L": "1..3", "available": "0..3"})
